@@ -512,6 +512,34 @@ func sInstallDurable(c *Ctx, rule string) {
 			c.RequireAt(r, rule, "installSnapshot:"+callee+"-after-restore", s.Instr, "durable snapshot and successful FSM restore precede every position/configuration/log update", restored)
 		}
 	}
+	// the snapshot written locally and the positions published are the
+	// request's (index, term, configuration)
+	for _, s := range c.P.CallsIn(fn, engine.Is("iface:SnapshotStore.Create")) {
+		a1, a2, a3, a4 := c.P.Arg(s.Instr, 1), c.P.Arg(s.Instr, 2), c.P.Arg(s.Instr, 3), c.P.Arg(s.Instr, 4)
+		var cfgArg, cfgIdxArg string
+		for _, s2 := range c.P.CallsIn(fn, engine.Is("(*Raft).setCommittedConfiguration")) {
+			cfgArg, cfgIdxArg = c.P.Arg(s2.Instr, 0), c.P.Arg(s2.Instr, 1)
+		}
+		ok := a1 == "p2.LastLogIndex" && a2 == "p2.LastLogTerm" && a3 == cfgArg && a4 == cfgIdxArg && strings.Contains(a3, "DecodeConfiguration(p2.Configuration)") && strings.Contains(a4, "p2.ConfigurationIndex")
+		c.Check(rule, "installSnapshot:create-args", c.P.InstrPos(s.Instr), "the local snapshot is created at (req.LastLogIndex, req.LastLogTerm) with the request's decoded configuration and configuration index – the same values later installed as committed configuration",
+			ok, "Create(…, "+a1+", "+a2+", "+a3+", "+a4+", …)", 1)
+	}
+	for _, s := range c.P.CallsIn(fn, engine.Is("(*raftState).setLastSnapshot")) {
+		a0, a1 := c.P.Arg(s.Instr, 0), c.P.Arg(s.Instr, 1)
+		c.Check(rule, "installSnapshot:snapshot-position-args", c.P.InstrPos(s.Instr), "setLastSnapshot(req.LastLogIndex, req.LastLogTerm)", a0 == "p2.LastLogIndex" && a1 == "p2.LastLogTerm", "("+a0+", "+a1+")", 1)
+	}
+	for _, s := range c.P.CallsIn(fn, engine.Is("(*Raft).setLatestConfiguration")) {
+		a0 := c.P.Arg(s.Instr, 0)
+		c.Check(rule, "installSnapshot:latest-configuration-arg", c.P.InstrPos(s.Instr), "the latest configuration becomes the snapshot's", strings.Contains(a0, "DecodeConfiguration(p2.Configuration)"), "("+a0+", …)", 1)
+	}
+	// the restore request names the sink just closed
+	if f := c.P.LookupField("restoreFuture", "ID"); f != nil {
+		for _, w := range c.P.FieldWritesIn(fn, f) {
+			v, _ := c.P.StoredValue(w.Instr, f)
+			d := c.P.D(v)
+			c.Check(rule, "installSnapshot:restore-request-names-this-snapshot", c.P.InstrPos(w.Instr), "the FSM is asked to restore the snapshot that was just written (sink.ID())", strings.HasPrefix(d, "recv.snapshots.Create(") && strings.HasSuffix(d, "#0.ID()"), "ID = "+d, 1)
+		}
+	}
 	if succ != nil {
 		for _, s := range c.StoresOfConst(fn, succ, true) {
 			c.RequireAt(r, rule, "installSnapshot:success-last", s.Instr, "Success=true only after restore and after lastApplied/lastSnapshot were set from the request", func(v engine.View) bool {
